@@ -79,6 +79,54 @@ func byteSliceLit(e ast.Expr) (string, bool) {
 	return s, true
 }
 
+// depFuncs: translates ByteToLower / ByteToUpper of the bytescase version required by <repo>/go.mod ("" if not found)
+func depFuncs(repo string) string {
+	gm, err := os.ReadFile(filepath.Join(repo, "go.mod"))
+	if err != nil {
+		return ""
+	}
+	ver := ""
+	for _, ln := range strings.Split(string(gm), "\n") {
+		fs := strings.Fields(ln)
+		for i, w := range fs {
+			if w == "github.com/intuitivelabs/bytescase" && i+1 < len(fs) {
+				ver = fs[i+1]
+			}
+		}
+	}
+	cache := os.Getenv("GOMODCACHE")
+	if cache == "" {
+		gp := os.Getenv("GOPATH")
+		if gp == "" {
+			gp = filepath.Join(os.Getenv("HOME"), "go")
+		}
+		cache = filepath.Join(gp, "pkg", "mod")
+	}
+	dir := filepath.Join(cache, "github.com", "intuitivelabs", "bytescase@"+ver)
+	names, _ := filepath.Glob(filepath.Join(dir, "*.go"))
+	if ver == "" || len(names) == 0 {
+		return ""
+	}
+	fset := token.NewFileSet()
+	var files []*ast.File
+	for _, n := range names {
+		if strings.HasSuffix(n, "_test.go") {
+			continue
+		}
+		f, err := parser.ParseFile(fset, n, nil, 0)
+		if err != nil {
+			return ""
+		}
+		files = append(files, f)
+	}
+	conf := types.Config{Importer: fakeImporter{importer.Default()}, Error: func(err error) {}}
+	info := &types.Info{Defs: map[*ast.Ident]types.Object{}, Uses: map[*ast.Ident]types.Object{},
+		Types: map[ast.Expr]types.TypeAndValue{}}
+	pkg, _ := conf.Check("bytescase", fset, files, info)
+	txt, _, _ := emitFuncs(files, info, pkg, []string{"ByteToLower", "ByteToUpper"}, "bytescase_", "depTranslated")
+	return txt
+}
+
 func buildOK(f *ast.File) bool {
 	for _, cg := range f.Comments {
 		if cg.Pos() > f.Package {
@@ -134,7 +182,12 @@ func main() {
 	pkg, _ := conf.Check("sipsp", fset, files, info)
 	if len(os.Args) == 5 {
 		// translated leaf functions (funcs.go)
-		txt, _, _ := emitFuncs(files, info, pkg)
+		txt, _, _ := emitFuncs(files, info, pkg, wantedFuncs, "", "translated")
+		// the dependency github.com/intuitivelabs/bytescase at the version the repository's go.mod pins: its two
+		// scalar leaf functions, from the module cache
+		if dtxt := depFuncs(repo); dtxt != "" {
+			txt += "\n/-! dependency github.com/intuitivelabs/bytescase (version pinned by go.mod) -/\n\n" + dtxt
+		}
 		hdr := "/- GENERATED by /verif/extract (funcs.go) from the Go sources — do not edit. -/\nimport Sipsp.GoSem\nset_option linter.unusedVariables false\nnamespace Sipsp.Gen.F\n\n"
 		if err := os.WriteFile(os.Args[4], []byte(hdr+txt+"\nend Sipsp.Gen.F\n"), 0o644); err != nil {
 			fmt.Fprintln(os.Stderr, err)
